@@ -63,6 +63,11 @@ pub fn via_constructors(input: &[u8]) -> Vec<(&'static str, Vec<String>, End)> {
     let _ = br.fill_buf();
     run("from_read", Parser::from_read(input, Config::default()));
     run("from_buf_reader", Parser::from_buf_reader(br, Config::default()));
+    for (name, cap) in [("from_buf_reader(capacity 0)", 0usize), ("from_buf_reader(capacity 1)", 1)] {
+        let mut br = BufReader::with_capacity(cap, input);
+        let _ = br.fill_buf();
+        run(name, Parser::from_buf_reader(br, Config::default()));
+    }
     run("from_boxed_dyn_read", Parser::from_boxed_dyn_read(Box::new(input), Config::default()));
     out
 }
